@@ -110,6 +110,28 @@ def case_st(draw):
     return {"op": op, "spec": spec, "ax": ax, "axis_form": draw(st.sampled_from(["name", "pos"])), "p": p}
 
 
+def enumerate_cases(tier):
+    """dropna thresholds: slices of every size m = 1..12 (as one dimension and, where m factorises, as two) holding every number of NaNs
+    0..m, against every minvalid 0..m (the runner sweeps minvalid)"""
+    for m in range(1, 13):
+        shapes = [(m,)] + [(a, m // a) for a in (2, 3) if m % a == 0 and m // a > 1]
+        for sh in shapes:
+            for axpos in (0, len(sh)):
+                rows = m + 1
+                vals = []
+                for j in range(rows):          # row j: j NaNs, spread from the end
+                    vals.append([("NaN" if k >= m - j else float(k + 1)) for k in range(m)])
+                arr = np.array([[np.nan if x == "NaN" else x for x in r] for r in vals]).reshape((rows,) + sh)
+                if axpos:
+                    arr = np.moveaxis(arr, 0, -1)
+                dims = ["x", "y", "z"][:len(sh)]
+                dims = (["t"] + dims) if axpos == 0 else (dims + ["t"])
+                labels = [list(range(n))[::-1] for n in arr.shape]
+                flat = ["NaN" if np.isnan(x) else float(x) for x in arr.ravel().tolist()]
+                yield "dropna-threshold-grid", {"op": "dropna", "spec": {"dims": dims, "labels": labels, "vk": "f", "vals": flat}, "ax": dims.index("t"),
+                                                "axis_form": "name", "p": {}}
+
+
 def strategy(tier):
     return case_st()
 
